@@ -396,6 +396,41 @@ fn main() {
                 }
             }
         }
+        // hostile CONTENT inside a valid envelope: every text run of the buffer (selectors, scriptlet
+        // arguments, hostnames, the JSON of procedural filters) overwritten in place, length preserved, by
+        // texts that are well-formed msgpack strings but not what the loader's consumers expect
+        {
+            let mut runs: Vec<(usize, usize)> = vec![];
+            let mut i = 5;
+            while i < buf.len() {
+                if buf[i] >= 0x20 && buf[i] < 0x7f {
+                    let st = i;
+                    while i < buf.len() && buf[i] >= 0x20 && buf[i] < 0x7f { i += 1; }
+                    if i - st >= 4 { runs.push((st, i)); }
+                } else {
+                    i += 1;
+                }
+            }
+            let fill = |n: usize, head: &str| -> Vec<u8> {
+                let mut v: Vec<u8> = head.bytes().take(n).collect();
+                while v.len() < n { v.push(b' '); }
+                v
+            };
+            for (st, en) in runs {
+                let n = en - st;
+                for head in ["{\"selector\":[]}", "{\"selector\":[{}]}", "{\"selector\":[],\"action\":null}", "{}", "[]", "null", "", "+js(", "\\", "\"", ",,,,", "{{1}}", "*", "||", "#@#", ":style(", "\u{0}"] {
+                    let mut b = buf.clone();
+                    b[st..en].copy_from_slice(&fill(n, head));
+                    attempt(&mut cx, &mut sm, &mut tally, &b, "text run overwritten in place");
+                }
+                // also only the first byte / the last byte of the run
+                for (pos, c) in [(st, b' '), (st, b'{'), (en - 1, b'\\'), (en - 1, b'(')] {
+                    let mut b = buf.clone();
+                    b[pos] = c;
+                    attempt(&mut cx, &mut sm, &mut tally, &b, "text run edge byte replaced");
+                }
+            }
+        }
         // random multi-byte corruption, insertions and deletions
         for _ in 0..(600 * a.scale) {
             let mut b = buf.clone();
